@@ -230,6 +230,27 @@ def rule_transparent_call(ctx):
         ctx.report("transparent:trait", ctx.where(f, fn.node), "the delegated trait is no longer the placeholder's own type (`ty.trait_name()`, `Display` when absent)", {})
 
 
+def _fields_arg(ctx, fn):
+    """(regex alternative for 'the fields of the item being expanded' inside `fn`, number of places it stands for):
+    `self.fields`, or - in a helper of FmtAttribute that takes the fields as a parameter - that parameter, provided every
+    call of the helper in the fmt derives passes `self.fields` there"""
+    alt, sites = r"self\.fields", 1
+    if fn.file.rel != MOD:
+        return alt, sites
+    prm = [x for p_ in fn.node["sig"]["inputs"] if A.kind(p_) == "FnArg::Typed" for x in [A.pat_idents(p_["0"]["pat"])]]
+    calls = []
+    for rel in (DISPLAY, DEBUG, MOD):
+        for g in A.functions(ctx.files[rel]):
+            if g.block is None or g is fn:
+                continue
+            for mc, _ in A.method_calls(g.block, fn.name):
+                calls.append((g, mc))
+    for i_, ns in enumerate(prm):
+        if len(ns) == 1 and calls and all(i_ < len(mc["args"]) and re.fullmatch(r"&?self\.fields", A.render(mc["args"][i_])) for _, mc in calls):
+            return r"(?:self\.fields|%s)" % re.escape(ns[0]), len(calls)
+    return alt, sites
+
+
 def _write_templates(ctx):
     """templates in fmt/ that hand a FmtAttribute to write!/format_args!"""
     out = []
@@ -281,7 +302,7 @@ def rule_tpl_verb(ctx):
                 dv = rest[0][0]["body"][0]
                 b = TY.resolve(t.fn, dv["s"], dv["span"][0])
                 init = A.render(b["init"]) if b and b.get("init") is not None else "?"
-                want = re.fullmatch(r"(\w+)\.additional_deref_args\(self\.fields\)", init)
+                want = re.fullmatch(r"(\w+)\.additional_deref_args\(%s\)" % _fields_arg(ctx, t.fn)[0], init)
                 abind = TY.resolve(t.fn, attr["s"], attr["span"][0])
                 if not want or want.group(1) != attr["s"]:
                     ctx.report(
@@ -569,14 +590,15 @@ def rule_transparent_siblings(ctx):
         aty, _ = TY.var_type_at(ctx, t.fn, attr, parts[0]["span"][0])
         if "FmtAttribute" not in (aty or ""):
             continue
-        n += 1
+        falt, fsites = _fields_arg(ctx, t.fn)
+        n += fsites
         off = A.span_of(t.node["path"])[0]
         conds = _if_conditions(t.fn, off)
         construct = f"{t.key()}:write!(#{attr})"
-        ctx.instance(construct, sample={"site": construct, "conditions": conds})
+        ctx.instance(construct, sample={"site": construct, "conditions": conds, "stands for": fsites})
         want = f"let Some((expr,trait_ident))={attr}.transparent_call_on_fields(self.fields)"
         neg = [c for c, br in conds if not br]
-        if not any(re.fullmatch(r"let Some\(\((\w+),(\w+)\)\)=%s\.transparent_call_on_fields\(self\.fields\)" % re.escape(attr), c) for c in neg):
+        if not any(re.fullmatch(r"let Some\(\((\w+),(\w+)\)\)=%s\.transparent_call_on_fields\(%s\)" % (re.escape(attr), falt), c) for c in neg):
             odd = [c for c, br in conds if "transparent_call" in c]
             ctx.report(
                 construct + ":not-fallback",
@@ -594,17 +616,17 @@ def rule_transparent_siblings(ctx):
     ctx.floor("write! sites with a FmtAttribute", n, 3)
     # delegation shape
     m = 0
-    for rel in (DISPLAY, DEBUG):
+    for rel in (DISPLAY, DEBUG, MOD):
         for fn in A.functions(ctx.files[rel]):
             for t in T.templates_of(fn):
                 tx = T.ir_text(t.ir).replace(" ", "")
-                fname = formatter_name(ctx, rel)
+                fname = formatter_name(ctx, rel if rel != MOD else DISPLAY)
                 if "::fmt(" in tx and (fname + ")") in tx and "write!" not in tx and "implderive" not in tx.replace("#impl_gens", "").replace("impl#", "impl"):
                     if tx.startswith("#"):
                         continue
                     if "fnfmt(" in tx:
                         continue
-                    m += 1
+                    m += _fields_arg(ctx, fn)[1]
                     ctx.instance(f"{t.key()}:delegate", sample=tx)
                     if not re.fullmatch(r"derive_more::core::fmt::#(\w+)::fmt\(#(\w+),%s\)" % re.escape(fname), tx):
                         ctx.report(f"{t.key()}:delegate-shape", f"{rel}:{t.line}", f"delegation in `{fn.qual}` is `{tx}`, expected `derive_more::core::fmt::#trait::fmt(#expr, __derive_more_f)`", {})
